@@ -80,6 +80,8 @@ def _run_one(variant):
 
 
 def _init(sources, pid):
+    import os
+    os.environ['VERIF_TIER'] = 'quick'      # variants are decided with the quick configuration families
     global _SOURCES, _PID
     _SOURCES, _PID = sources, pid
 
